@@ -381,6 +381,36 @@ pub fn gen_cases(cfg: &RunCfg) -> Vec<Case> {
         let s = if k < 5 { String::new() } else { gen_string(&mut rng, ascii) };
         value(ty, &format!("\"{}\"", esc(&s)), format!("( cstring {} )", hex(&s)), "cstring", &mut cases);
     }
+    // character strings written over several lines (X.680 12.14.1): spacing before a line break, the line break and the
+    // indentation behind it are not part of the value; blank lines vanish
+    let nml = cfg.budget(40, 800);
+    for k in 0..nml {
+        let (ty, ascii) = [("UTF8String", false), ("VisibleString", true), ("MyStr", false), ("IA5String", true)][k % 4];
+        let nlines = 2 + rng.below(3);
+        let mut content = String::new();
+        let mut raw = String::new();
+        for li in 0..nlines {
+            // a line: no spacing at the edges that meet a line break
+            let mut line = gen_string(&mut rng, ascii);
+            if li > 0 {
+                line = line.trim_start_matches([' ', '\t']).to_string();
+            }
+            if li + 1 < nlines {
+                line = line.trim_end_matches([' ', '\t']).to_string();
+            }
+            if li > 0 {
+                let before = ["", " ", "  ", "\t"][rng.below(4)];
+                let brk = ["\n", "\r\n", "\n\n", "\n \n"][rng.below(4)];
+                let after = ["", "    ", "\t", " \t "][rng.below(4)];
+                raw.push_str(before);
+                raw.push_str(brk);
+                raw.push_str(after);
+            }
+            content.push_str(&line);
+            raw.push_str(&esc(&line));
+        }
+        value(ty, &format!("\"{raw}\""), format!("( cstringml {} {} )", hex(&content), hex(&raw)), "cstring-over-several-lines", &mut cases);
+    }
     // bstring / hstring
     let nbits = cfg.budget(80, 2000);
     for k in 0..nbits {
